@@ -25,16 +25,20 @@ func init() {
 
 func (g *gen) jsDirectives() {
 	const rel = "soyjs/directives.go"
-	cl, ok := g.varValue(rel, "PrintDirectives").(*ast.CompositeLit)
 	type ent struct {
 		Name   string
 		JS     string
 		Cancel bool
 	}
 	var ents []ent
-	if !ok {
-		g.fail("%s: PrintDirectives is not a composite literal", rel)
-	} else {
+	// pattern route: the map literal, entries positional or keyed
+	perr := g.silent(func() {
+		cl, ok := g.varValue(rel, "PrintDirectives").(*ast.CompositeLit)
+		if !ok {
+			g.fail("%s: PrintDirectives is not a composite literal", rel)
+			return
+		}
+		seen := map[string]bool{}
 		for _, el := range cl.Elts {
 			kv, ok := el.(*ast.KeyValueExpr)
 			if !ok {
@@ -43,18 +47,104 @@ func (g *gen) jsDirectives() {
 			}
 			name, ok1 := strLit(kv.Key)
 			v, ok2 := kv.Value.(*ast.CompositeLit)
-			if !ok1 || !ok2 || len(v.Elts) != 2 {
+			if !ok1 || !ok2 || seen[name] {
 				g.fail("%s: PrintDirectives entry shape", rel)
 				continue
 			}
-			js, ok3 := strLit(v.Elts[0])
-			id, ok4 := v.Elts[1].(*ast.Ident)
-			if !ok3 || !ok4 || (id.Name != "true" && id.Name != "false") {
+			seen[name] = true
+			var fName, fCancel ast.Expr
+			okShape := true
+			for i, fe := range v.Elts {
+				if fkv, isKV := fe.(*ast.KeyValueExpr); isKV {
+					switch {
+					case isIdent(fkv.Key, "Name"):
+						fName = fkv.Value
+					case isIdent(fkv.Key, "CancelAutoescape"):
+						fCancel = fkv.Value
+					default:
+						okShape = false
+					}
+				} else if i == 0 {
+					fName = fe
+				} else if i == 1 {
+					fCancel = fe
+				} else {
+					okShape = false
+				}
+			}
+			js, cancel := "", false
+			if fName != nil {
+				var ok3 bool
+				if js, ok3 = strLit(fName); !ok3 {
+					okShape = false
+				}
+			}
+			if fCancel != nil {
+				if isIdent(fCancel, "true") || isIdent(fCancel, "false") {
+					cancel = isIdent(fCancel, "true")
+				} else {
+					okShape = false
+				}
+			}
+			if !okShape {
 				g.fail("%s: PrintDirectives[%q] fields are not (string literal, bool literal)", rel, name)
 				continue
 			}
-			ents = append(ents, ent{name, js, id.Name == "true"})
+			ents = append(ents, ent{name, js, cancel})
 		}
+	})
+	canon := func(es []ent) string {
+		m := map[string]string{}
+		for _, e := range es {
+			m[e.Name] = fmt.Sprintf("%q %v", e.JS, e.Cancel)
+		}
+		return canonMap(m)
+	}
+	pats := ""
+	if len(perr) == 0 {
+		pats = canon(ents)
+	}
+	// evaluation route: the exported map of the compiled package
+	evs, everr := "", ""
+	var evEnts []ent
+	ev, err := g.goEval("soyjs", []string{"encoding/hex"}, `	out := [][]interface{}{}
+	for name, d := range PrintDirectives {
+		out = append(out, []interface{}{hex.EncodeToString([]byte(name)), hex.EncodeToString([]byte(d.Name)), d.CancelAutoescape})
+	}
+	res["PrintDirectives"] = out`)
+	if err != nil {
+		everr = err.Error()
+	} else {
+		var raw [][]interface{}
+		if ev.get("PrintDirectives", &raw) {
+			for _, e := range raw {
+				if len(e) != 3 {
+					everr = "malformed evaluation result"
+					break
+				}
+				hn, ok1 := e[0].(string)
+				hj, ok2 := e[1].(string)
+				c, ok3 := e[2].(bool)
+				n, err1 := hexDecode(hn)
+				j, err2 := hexDecode(hj)
+				if !ok1 || !ok2 || !ok3 || err1 != nil || err2 != nil {
+					everr = "malformed evaluation result"
+					break
+				}
+				evEnts = append(evEnts, ent{n, j, c})
+			}
+			if everr == "" {
+				evs = canon(evEnts)
+			}
+		} else {
+			everr = "no result for PrintDirectives"
+		}
+	}
+	switch g.choose(rel+" PrintDirectives", pats, strings.Join(perr, "; "), evs, everr) {
+	case routeEval:
+		ents = evEnts
+	case routeNone:
+		ents = nil
 	}
 	sort.Slice(ents, func(i, j int) bool { return ents[i].Name < ents[j].Name })
 	g.p("(* soyjs/directives.go PrintDirectives: name -> (JavaScript function name, CancelAutoescape) *)\n")
